@@ -15,6 +15,8 @@
 (*   f.dir_ex, f.dir_mode               the directory holding it           *)
 (*   f.tmp_go    group/other permission bits of every OTHER file in that   *)
 (*               directory (temp files), f.tmp_n their number              *)
+(*   f.others    digest of everything else below the home directory (path, *)
+(*               content, mode, owner; e.g. ~/.docker/config.json)         *)
 (* pv is the observation before the save started, news the set of labels   *)
 (* of the complete new contents that saves in flight intend to write, id   *)
 (* the identity of the saving process [priv, uid, gid].                    *)
@@ -60,7 +62,8 @@ StateChecks(f, pv, news, id) ==
      <<IsFile(pv.cfg) /\ IsFile(f.cfg) /\ MaySetOwner(pv, id) /\ (f.cfg_uid # pv.cfg_uid \/ f.cfg_gid # pv.cfg_gid),
        "S3-owner-kept">>,
      <<pv.dir_ex = 1 /\ (f.dir_ex # 1 \/ f.dir_mode # pv.dir_mode), "S3-dir-kept">>,
-     <<pv.dir_ex = 0 /\ f.dir_ex = 1 /\ GO(f.dir_mode) # 0, "S3-new-dir-private">> >>
+     <<pv.dir_ex = 0 /\ f.dir_ex = 1 /\ GO(f.dir_mode) # 0, "S3-new-dir-private">>,
+     <<f.others # pv.others, "S5-nothing-else-touched">> >>
 
 \* S2 when ONE save (no concurrent one) has returned: ok = 1 success / 0 error; new = the label it meant to write
 EndChecks(f, pv, new, ok) ==
@@ -121,5 +124,6 @@ Denotes(c, B, A) ==
 \* ok = 0 -> nothing changed (the file level is S2)
 CmdChecks(c, bases, A, ok) ==
   << <<ok = 1 /\ c.kind # "put" /\ ~\E B \in bases : Denotes(c, B, A), "S4-denotes">>,
-     <<A.parse = "bad", "S4-parses">> >>
+     <<A.parse = "bad" /\ \E B \in bases : B.parse # "bad", "S4-parses">>,
+     <<ok = 1 /\ c.kind # "put" /\ \A B \in bases : B.parse = "bad", "S4-unparsable-refused">> >>
 =============================================================================
